@@ -98,6 +98,11 @@ fn run_exec<C: CellType, E: Executable<C>>(case: &Case, world: *mut World, exec:
         }
         Mode::Unsafe => unsafe { exec.execute_unsafe(&mut ctx).map(|_| true) },
     }));
+    if r.is_err() {
+        // (a death from here on is not the allocation-failure abort)
+        #[cfg(not(miri))]
+        crate::isolate::mark_panic_caught();
+    }
     let budget_left = ctx.budget as u64;
     let survived = match pregrown {
         Some((base, _)) if case.alloc.guard && base >= galloc::ARENA_BASE && base < galloc::ARENA_BASE + galloc::ARENA_SIZE => {
